@@ -71,7 +71,7 @@ int main(int argc, char** argv)
     unsigned seed    = atoi(argv[2]);
     int count = atoi(argv[3]), threads = atoi(argv[4]);
     const auto give = StencilDistributionMethod::CPU_GIVE, take = StencilDistributionMethod::CPU_TAKE;
-    long nfail = 0, ncase = 0;
+    long nfail = 0, ncase = 0, nsplit = 0;
     for (int c = 0; c < count; c++) {
         std::mt19937 gen(seed * 1000003u + c);
         std::uniform_real_distribution<double> U(-1, 1);
@@ -80,7 +80,11 @@ int main(int argc, char** argv)
         const double Rmax = 1.3, R0 = dir ? 0.1 : 1e-4;
         Problem P = makeProblem(g, a, gyro, Rmax);
         // random non-uniform grid whose every second node is a midpoint (as the generator produces), 2 levels
-        int nrc = 5 + (int)(gen() % 4), ntq = 1 + (int)(gen() % 3); // coarse radii; quarter of the coarse angular cells
+        int nrc = 5 + (int)(gen() % 4), ntq = 1 + (int)(gen() % 3);
+        if (c % 3 == 2) { // many more angles than radii: the circle/radial split of the coarse level falls well below half of the fine one
+            nrc = 5;
+            ntq = 4 + (int)(gen() % 3);
+        } // coarse radii; quarter of the coarse angular cells
         std::vector<double> cr(nrc), rad, half, ang;
         cr[0] = R0;
         for (int i = 1; i < nrc; i++)
@@ -110,6 +114,8 @@ int main(int argc, char** argv)
         std::string fail, where = P.name + (dir ? " DirBC" : " across-origin") + " grid " + std::to_string(rad.size()) + "x" + std::to_string(ang.size() - 1);
         try {
             Lv T = levels(rad, ang, P, true, true);
+            if (2 * T.l1->grid().numberSmootherCircles() < T.l0->grid().numberSmootherCircles())
+                nsplit++;
             for (int lvl = 0; lvl < 2 && fail.empty(); lvl++) {
                 Level& Lt = lvl == 0 ? *T.l0 : *T.l1;
                 const PolarGrid& grid = Lt.grid();
@@ -272,6 +278,6 @@ int main(int argc, char** argv)
                 std::cout << "{\"fail\":true,\"case\":" << c << ",\"where\":\"" << where << "\",\"what\":\"" << fail << "\"}" << std::endl;
         }
     }
-    std::cout << "{\"summary\":true,\"cases\":" << ncase << ",\"failed\":" << nfail << "}" << std::endl;
+    std::cout << "{\"summary\":true,\"cases\":" << ncase << ",\"coarse_split_below_half\":" << nsplit << ",\"failed\":" << nfail << "}" << std::endl;
     return 0;
 }
